@@ -718,6 +718,13 @@ package graphql
 //@   reads ast.Directive.Name, ast.Directive.Arguments, ast.Argument.Name, ast.Argument.Value
 //@   reads ast.Variable.Name, ast.IntValue.Value, ast.FloatValue.Value, ast.StringValue.Value, ast.BooleanValue.Value, ast.EnumValue.Value, ast.ListValue.Values, ast.ObjectValue.Fields, ast.ObjectField.Name, ast.ObjectField.Value
 
+//@ func fingerprintWriter.writeValue
+//@   trusted
+//@   assigns nothing
+//@ func fingerprintWriter.writeType
+//@   trusted
+//@   assigns nothing
+
 // Each field selection contributes its alias AND its name; every spread hashes the fragment body.
 //@ func fingerprintWriter.writeSelectionSet
 //@   props C06 C13
